@@ -11,8 +11,10 @@
 (***************************************************************************)
 EXTENDS TokensAlphabet, FiniteSets, TLC, Json
 
-CONSTANTS Depths,    \* set of depths, e.g. {10, 100, 1000, 2500}
-          MaxBytes   \* bound on the size of an input
+CONSTANTS Depths,     \* set of depths, e.g. {10, 100, 500, 2500}
+          BindDepths, \* further depths, explored only for the kinds that bind a name per level (block-like
+                      \* kinds print output that is quadratic in the depth: indentation)
+          MaxBytes    \* bound on the size of an input
 
 VARIABLES kind, d, mode
 vars == <<kind, d, mode>>
@@ -23,23 +25,24 @@ K == NestKinds
 Closers(dd, m) == CASE m = "balanced" -> dd [] m = "unclosed" -> 0 [] m = "overclosed" -> dd + 1
 Size(k, dd, m) == dd * Len(K[k].open) + Len(K[k].inner) + Closers(dd, m) * Len(K[k].close)
 
+DepthsOf(k) == IF K[k].binds THEN Depths \cup BindDepths ELSE Depths
 MinDepth == CHOOSE x \in Depths : \A y \in Depths : x <= y
-NextDepth(dd) == CHOOSE x \in Depths : x > dd /\ \A y \in Depths : y > dd => x <= y
+NextDepth(k, dd) == CHOOSE x \in DepthsOf(k) : x > dd /\ \A y \in DepthsOf(k) : y > dd => x <= y
 
-ASSUME /\ Depths \subseteq Nat \ {0} /\ Depths # {}
+ASSUME /\ Depths \subseteq Nat \ {0} /\ Depths # {} /\ BindDepths \subseteq Nat
        /\ PrintT(<<"CASE", ToJson([kinds |-> K, depths |-> Depths, maxbytes |-> MaxBytes])>>)
 
 Init == kind \in 1..Len(K) /\ d = MinDepth /\ mode = "balanced"
 
-Deepen == /\ \E x \in Depths : x > d
-          /\ Size(kind, NextDepth(d), mode) <= MaxBytes
-          /\ d' = NextDepth(d) /\ UNCHANGED <<kind, mode>>
+Deepen == /\ \E x \in DepthsOf(kind) : x > d
+          /\ Size(kind, NextDepth(kind, d), mode) <= MaxBytes
+          /\ d' = NextDepth(kind, d) /\ UNCHANGED <<kind, mode>>
 Reclose == /\ \E m \in Modes \ {mode} : Size(kind, d, m) <= MaxBytes /\ mode' = m
            /\ UNCHANGED <<kind, d>>
 Next == Deepen \/ Reclose
 Spec == Init /\ [][Next]_vars
 
-TypeOK == kind \in 1..Len(K) /\ d \in Depths /\ mode \in Modes
+TypeOK == kind \in 1..Len(K) /\ d \in DepthsOf(kind) /\ mode \in Modes
 SizeOK == Size(kind, d, mode) <= MaxBytes
 (* the nesting only ever gets deeper *)
 Monotone == [][d' >= d /\ kind' = kind]_vars
